@@ -23,12 +23,16 @@ EXPLANATION = (
     "keywords; no variable / rule block (classes with __len__) is used as a truth value anywhere in the package (T15); thorough tier also "
     "checks the 61 shipped .fll files against the extracted tables; every parameter of the exporter / importer methods is read (T16)"
     "; FllImporter.engine is interpreted on nine model documents: every component of the text is processed once, in the order of the text, with its own lines (T13 flush)"
+    "; RT-sem - the whole round trip is interpreted (sa/objexec.py: the package's classes on model objects, floating-point fields as symbols that print as "
+    "placeholders in the library's number format) on model engines built through the real constructors, containing every term, norm, activation and "
+    "defuzzifier class, every flag in both states, optional components present and absent: export(import(export(E))) == export(E) as text, and "
+    "import(export(E)) equals E field by field"
 )
 ASSUMPTIONS = [
     "representability of numbers at settings.decimals and numeric equality after re-import are not decided",
     "identifier names and single-line descriptions without '#' (property precondition)",
 ]
-FLOORS = {"T17": 1, "T16": 1, "T15": 2, "T13": 3, "T14": 6, "T4": 30, "T5": 18, "T6": 23, "T7": 7, "T8": 6, "T9": 50, "T10": 20, "T11": 1}
+FLOORS = {"RT-sem": 2, "T17": 1, "T16": 1, "T15": 2, "T13": 3, "T14": 6, "T4": 30, "T5": 18, "T6": 23, "T7": 7, "T8": 6, "T9": 50, "T10": 20, "T11": 1}
 
 KIND_BY_ANNOTATION = [("bool", "boolean"), ("float", "to_float"), ("SNorm", "snorm"), ("TNorm", "tnorm"),
                       ("Defuzzifier", "defuzzifier"), ("Activation", "activation"), ("str", "raw")]
@@ -73,6 +77,9 @@ def run(check: Check) -> None:
     from .common import unused_parameters
 
     unused_parameters(check, "T16", {"FllExporter", "FllImporter", "Exporter", "Importer"})
+    from .roundtrip_sem import roundtrip
+
+    roundtrip(check)  # RT-sem: export -> import -> export interpreted on model engines
     if check.tier == "thorough":
         corpus(check)
     check.exhaustive_parts += ["writer/reader tables compared entry by entry"]
